@@ -35,15 +35,35 @@ impl<'a> Remote<'a> {
     pub fn schedule(&self) {
         instrument!(compio_log::Level::TRACE, "Remote::schedule", id = ?self.header().id);
 
-        let state = self.header().state.start_scheduling();
+        let mut state = self.header().state.start_scheduling();
 
         trace!(?state);
 
         if state.is_scheduled() || state.is_completed() || state.is_cancelled() {
             #[cfg(compio_verif)]
             crate::verif::sched_point(crate::verif::REMOTE_EARLY_RETURN);
-            self.header().state.finish_scheduling();
+            // The SCHEDULING section belongs to whoever found the bit clear. When
+            // another waker is inside, leave the bit alone: the executor relies on
+            // it to know that somebody may still be using `Shared`.
+            if !state.is_scheduling() {
+                self.header().state.finish_scheduling();
+            }
             return;
+        }
+
+        // We flipped SCHEDULED, so the push is ours to make, but another waker
+        // (one that started before the task last ran) is still inside the section.
+        // Wait for it to leave and enter the section ourselves, so that SCHEDULING
+        // stays set for as long as we use `Shared`.
+        while state.is_scheduling() {
+            crate::yield_now();
+            state = self.header().state.start_scheduling();
+            if state.is_completed() || state.is_cancelled() {
+                if !state.is_scheduling() {
+                    self.header().state.finish_scheduling();
+                }
+                return;
+            }
         }
 
         // Load shared pointer - it should always be valid since we keep it until
